@@ -72,8 +72,13 @@ def clone(t):
     return DerivationTree(t.value, None if t.children is None else [clone(c) for c in t.children])
 
 
-def inv(t) -> str:
-    """'' if all representation invariants hold, else a description"""
+def _same(a, b, identity):
+    return a is b if identity else (a.id == b.id and a.value == b.value)
+
+
+def inv(t, identity: bool = True) -> str:
+    """'' if all representation invariants hold, else a description.  identity=False: node objects may be shared
+    with an equal tree (DerivationTree caches paths()/trie() per equal tree), compare ids and labels instead."""
     ns = nodes(t)
     leaves = [(p, n) for p, n in ns if not n.children]
     want_open = any(n.children is None for _, n in ns)
@@ -89,14 +94,14 @@ def inv(t) -> str:
     if t.to_string() != closed_ref:
         return "to_string() %r != terminal leaves %r" % (t.to_string(), closed_ref)
     ps = t.paths()
-    if [p for p, _ in ps] != [p for p, _ in ns] or any(a is not b for (_, a), (_, b) in zip(ps, ns)):
+    if [p for p, _ in ps] != [p for p, _ in ns] or any(not _same(a, b, identity) for (_, a), (_, b) in zip(ps, ns)):
         return "paths() disagrees with the tree"
     if len(t) != len(ns):
         return "len %d != %d nodes" % (len(t), len(ns))
     ids = [n.id for _, n in ns]
     uniq = len(set(ids)) == len(ids)
     for p, n in ns:
-        if t.get_subtree(p) is not n:
+        if not _same(t.get_subtree(p), n, identity):
             return "get_subtree(%s) is a different node" % (p,)
         if not t.is_valid_path(p):
             return "is_valid_path(%s) false" % (p,)
@@ -111,7 +116,7 @@ def inv(t) -> str:
         return "trie keys differ from paths: %d paths, %d keys, missing e.g. %s" % (len(ns), len(keys), missing[:2])
     for p, n in ns:
         v = trie[p]
-        if v[0] != p or v[1] is not n:
+        if v[0] != p or not _same(v[1], n, identity):
             return "trie[%s] -> %s" % (p, v[0])
         sub = trie.get_subtrie(p)
         want = sorted(q[len(p):] for q, _ in ns if q[:len(p)] == p)
